@@ -80,7 +80,7 @@ func run(tier string) int {
 	engines := []string{"pebble"}
 	scripts := []string{"mixed", "counter"}
 	if !quick {
-		engines = []string{"pebble", "rocksdb", "mem"}
+		engines = []string{"pebble", "mem"} // not rocksdb: see DESIGN.md 9.1
 	}
 	type job struct {
 		t      crashmc.Target
